@@ -156,6 +156,32 @@ def run_once(cfg, seed, rec, with_logger=True):
         rec.append("L-saver|%d|%s" % (len(saved), fx([[d["market_time"], d["market_id"], d["market_price"]] for d in saved[:3] + saved[-3:]])))
 
 
+def run_shadowed():
+    """an earlier run in this process registered OTHER classes under the names the measured run registers (a notebook cell
+    edited and run again): what a name resolves to is decided by the run's own registrations"""
+    def hook_registration(self):
+        return [EventHook(event=self, hook_type="market", is_before=True)]
+
+    def hooked_before_step_for_market(self, simulator, market):
+        REC.append("evSHADOW|%d" % market.market_id)
+    shadow_event = type("DetEvent", (EventABC,), {"hook_registration": hook_registration,
+                                                   "hooked_before_step_for_market": hooked_before_step_for_market})
+    shadow_agent = type("UserDefinedFCNAgent", (FCNAgent,), {"submitted_order": lambda self, log: REC.append("cbSHADOW")})
+    cfg = other_config()
+    cfg["A"]["class"] = "UserDefinedFCNAgent"
+    cfg["UE"] = {"class": "DetEvent"}
+    cfg["simulation"]["sessions"][0]["events"] = ["UE"]
+    global REC
+    REC = []
+    out = io.StringIO()
+    with contextlib.redirect_stdout(out), warnings.catch_warnings():
+        warnings.simplefilter("ignore")
+        runner = SequentialRunner(settings=cfg, prng=random.Random(6), logger=None)
+        runner.class_register(shadow_agent)
+        runner.class_register(shadow_event)
+        runner.main()
+
+
 def other_config():
     return {"simulation": {"markets": ["M"], "agents": ["A"], "sessions": [
         {"sessionName": 0, "iterationSteps": 15, "withOrderPlacement": True, "withOrderExecution": True, "withPrint": False, "maxNormalOrders": 2}]},
@@ -193,6 +219,7 @@ def main():
         [random.random() for _ in range(1000)]
         np.random.standard_normal(100)
         run_once(other_config(), 5, [])
+        run_shadowed()
         try:
             run_once(variant_of(cfg), seed + 1, [])
         except Exception:  # noqa: BLE001 - the variant is only there to leave state behind
